@@ -823,14 +823,31 @@ func (r *reader) read(src []byte) {
 		case stringMode:
 			r.partial("string not terminated")
 		case runeMode:
-			r.raise("rune not terminated")
+			r.partial("rune not terminated")
 		case escMode:
-			r.raise("escaped character not terminated")
+			r.partial("escaped character not terminated")
 		case symbolMode:
-			r.raise("|symbol| not terminated")
+			r.partial("|symbol| not terminated")
 		case charMode:
+			if len(r.carry)+(r.pos-r.tokenStart) == 0 {
+				r.partial("character not terminated")
+			}
 			r.pushChar(src)
 		case intMode:
+			switch len(r.carry) + (r.pos - r.tokenStart) {
+			case 0:
+				r.partial("# not terminated")
+			case 1:
+				var b byte
+				if 0 < len(r.carry) {
+					b = r.carry[0]
+				} else {
+					b = src[r.tokenStart]
+				}
+				if b == '-' || b == '+' {
+					r.partial("# not terminated")
+				}
+			}
 			r.pushInteger(src)
 		case sharpMode, sharpNumMode, mustArrayMode:
 			r.partial("# not terminated")
